@@ -125,7 +125,7 @@ class SGDDefault(SGD):
 def build(rng):
     dtype = None
     stock = P.make_stock(rng, pick(rng, ["brownian", "heston", "merton"]), dtype=dtype, cost=float(pick(rng, [0.0, 1e-3])), dt=1 / 250)
-    derivative = P.make_derivative(rng, stock, pick(rng, ["european", "lookback", "european"]), n_steps=int(pick(rng, [2, 4])), clauses=False)
+    derivative = P.make_derivative(rng, stock, pick(rng, ["european", "lookback", "european"]), n_steps=int(pick(rng, [2, 4])), clauses=None)  # (a quarter of the contracts carry clauses: the loss is on payoff(), clauses included)
     hk = pick(rng, ["ul", "ul", "none", "ul+eu"])
     hedge, hk = P.make_hedge(rng, derivative, hk)
     n_h = 1 if hedge is None else len(hedge)
